@@ -696,6 +696,17 @@ inline void genGlobalParams(Rng &rng, ColoquinteParameters &p, std::string *desc
   }
 }
 
+// Translate a whole circuit (rows, cells): used to move a block far away from the origin (e.g. a block whose origin is
+// tens of millimetres from zero in nanometre units), where 24-bit float mantissas no longer hold the coordinates
+inline void translateCircuit(Circuit &c, int dx, int dy) {
+  for (int i = 0; i < c.nbCells(); ++i) { c.cellX_[i] += dx; c.cellY_[i] += dy; }
+  for (auto &r : c.rows_) { r.minX += dx; r.maxX += dx; r.minY += dy; r.maxY += dy; }
+}
+inline void randomFarTranslation(Rng &rng, Circuit &c) {
+  auto pick = [&]() { long long m = rng.range(1LL << 24, 1LL << 27); if (rng.chance(0.3)) m = rng.range(0, 1 << 20); return (int)(rng.chance(0.5) ? m : -m); };
+  translateCircuit(c, pick(), pick());
+}
+
 // Named generator profiles
 inline GenOpts makeProfile(Rng &rng, const std::string &name) {
   GenOpts o;
@@ -727,6 +738,9 @@ inline GenOpts makeProfile(Rng &rng, const std::string &name) {
     // keep the number of density bins per row in the low thousands (width / (5 x height))
     o.rowHeightOverride = o.scale == 1000 ? (int)rng.pick(std::vector<int>{40, 100}) : o.scale == 10000 ? (int)rng.pick(std::vector<int>{100, 400}) : (int)rng.pick(std::vector<int>{400, 1000});
     o.maxCells = std::min(o.maxCells, 20);
+  } else if (name == "faraway") {
+    o.farInit = false;  // keep |coordinates| below 2^28 after the translation applied by the harness
+    o.maxNets = 30;
   } else if (name == "crowded") {
     // many narrow cells in few rows, many ties in the start positions, fixed cells first or last in the index order
     o.maxRows = (int)rng.pick(std::vector<int>{1, 2, 3, 5});
